@@ -77,7 +77,7 @@ pub fn run_scenario(sc: &J, out: &mut Vec<J>) {
     let delays = Rc::new(RefCell::new(0u64));
     let opts = AcquireOpts { use_crc: crc, acquire_retries: ju(sc, "retries", 50) as u32 };
     let mut sd = SdCard::new_with_options(SimSpi(card.clone()), SimDelay(delays.clone()), opts);
-    out.push(json!({"ev": "Reset", "id": sc["id"], "kind": sc["kind"], "crc": crc, "csd": {"ver": ver, "c_size": c_size, "mult": mult, "bl": bl, "erase": erase}, "weird": weird, "oor": sc.get("oor").and_then(|x| x.as_bool()).unwrap_or(false),
+    out.push(json!({"ev": "Reset", "id": sc["id"], "kind": sc["kind"], "crc": crc, "csd": {"ver": ver, "c_size": c_size, "mult": mult, "bl": bl, "erase": erase}, "weird": weird, "retries": ju(sc, "retries", 50), "oor": sc.get("oor").and_then(|x| x.as_bool()).unwrap_or(false),
         "cap": [cap_real >> 16, cap_real & 0xFFFF], "caprem": cap_rem, "nblocks": nblocks, "acmd41": card.borrow().acmd41_need,
         "budget": [card.borrow().budget >> 16, card.borrow().budget & 0xFFFF]}));
     let seed = ju(sc, "seed", 1);
